@@ -58,9 +58,9 @@ def insertManyLoop (now : Int) (ordered : Bool) :
       else (c1, .err e)
 
 def updateOut (r : UpdateResult) : Val :=
-  -- UpdateResult: matched_count is 0 when something was upserted
+  -- UpdateResult: matched_count is 0 when something was upserted (`upserted_id is not None`, or
+  -- `n and updatedExisting is False`: an upsert whose document has a null `_id`)
   .doc [("matched", .int (match r.upserted with
-          | some .null => r.n        -- `if self.upserted_id is not None`
           | some _ => 0
           | none => r.n)),
         ("modified", .int r.nModified),
